@@ -109,7 +109,12 @@ func TestC14Records(t *testing.T) {
 		n := rapid.IntRange(1, 3).Draw(t, "nsets")
 		cfg := &vlib.Config{}
 		for i := 0; i < n; i++ {
-			cfg.Sets = append(cfg.Sets, vlib.GenParamSetWide(t, uint(i+1)*uint(rapid.SampledFrom([]int{1, 7, 1000}).Draw(t, "idmul"))))
+			// ids over the whole unsigned range of the configuration file (distinct by construction: i+1 times a base, or a top-range value minus i)
+			id := uint(i+1) * uint(rapid.SampledFrom([]int{1, 7, 1000}).Draw(t, "idmul"))
+			if top := rapid.SampledFrom([]uint64{0, 0, 0, 4294967295, 4294967296 + 7, 9223372036854775807, 9223372036854775808 + 7, 18446744073709551615}).Draw(t, "idtop"); top != 0 {
+				id = uint(top) - uint(i)
+			}
+			cfg.Sets = append(cfg.Sets, vlib.GenParamSetWide(t, id))
 		}
 		cfg.Default = cfg.Sets[rapid.IntRange(0, n-1).Draw(t, "default")].ID
 		d, err := cfg.OpenDir(base, true) // always through the YAML loader: the mapping YAML -> parameters is under test
